@@ -40,9 +40,31 @@ fn usage() -> ! {
     exit(2)
 }
 
+/// Seconds since the driver began work on the current input (0 = idle); see `watchdog`.
+static INPUT_STARTED: std::sync::atomic::AtomicU64 = std::sync::atomic::AtomicU64::new(0);
+
+fn now_s() -> u64 {
+    std::time::SystemTime::now().duration_since(std::time::UNIX_EPOCH).map(|d| d.as_secs()).unwrap_or(0)
+}
+
+/// "Fails to return" must not cost a whole shard timeout: when one input has been in work for VERIF_WATCHDOG_S seconds
+/// (default 420) the driver reports it as lost and exits; the orchestrator restarts the shard behind that input.
+fn watchdog() {
+    let limit: u64 = std::env::var("VERIF_WATCHDOG_S").ok().and_then(|v| v.parse().ok()).unwrap_or(420);
+    std::thread::spawn(move || loop {
+        std::thread::sleep(std::time::Duration::from_secs(1));
+        let t = INPUT_STARTED.load(Ordering::SeqCst);
+        if t != 0 && now_s().saturating_sub(t) > limit {
+            println!("1 9\n# watchdog: no result after {} s (the call did not return)", limit);
+            std::process::exit(3);
+        }
+    });
+}
+
 fn main() {
     install_quiet_panic_hook();
     asefile_harness::install_discard_logger();
+    watchdog();
     let args: Vec<String> = std::env::args().skip(1).collect();
     if args.is_empty() {
         usage();
@@ -134,10 +156,12 @@ fn read_lines(path: &str) -> Vec<String> {
 
 fn begin(out: &mut Out, i: usize) -> io::Result<()> {
     writeln!(out, "#BEGIN {}", i)?;
+    INPUT_STARTED.store(now_s().max(1), Ordering::SeqCst);
     out.flush()
 }
 
 fn end(out: &mut Out, i: usize) -> io::Result<()> {
+    INPUT_STARTED.store(0, Ordering::SeqCst);
     writeln!(out, "#END {}", i)?;
     out.flush()
 }
@@ -340,6 +364,22 @@ fn sched_load(path: &str, kind: &[String]) -> Result<AsepriteFile, AsepriteParse
     let name = kind.first().map(|s| s.as_str()).unwrap_or("");
     if name == "file" {
         return AsepriteFile::read_file(Path::new(path));
+    }
+    if name == "pipe" {
+        // read_file on a path that is readable but NOT seekable and has no length: the read end of a pipe, named through
+        // /proc/self/fd, fed with the bytes of the file by another thread
+        use std::os::fd::AsRawFd;
+        let data = std::fs::read(path).map_err(AsepriteParseError::IoError)?;
+        let (reader, mut writer) = std::io::pipe().map_err(AsepriteParseError::IoError)?;
+        let feeder = std::thread::spawn(move || {
+            use std::io::Write;
+            let _ = writer.write_all(&data);
+        });
+        let p = format!("/proc/self/fd/{}", reader.as_raw_fd());
+        let r = AsepriteFile::read_file(Path::new(&p));
+        drop(reader);
+        let _ = feeder.join();
+        return r;
     }
     // Every other kind works on the bytes of the file.  A file the harness
     // cannot read is reported like the library would report it.
